@@ -309,10 +309,17 @@ def r5_9(ctx, rc):
     completion order (R1.2), and every directory the build created has an
     owner (R9.6) - otherwise an unchanged rebuild answers differently and
     re-executes."""
-    from .c01 import r1_2
+    from .c01 import r1_2, r1_5
     from .c09 import r9_6
     r1_2(ctx, rc)
     r9_6(ctx, rc)
+    # every root record and everything nested in it reaches the cache file
+    # (R16.5, R16.6), and a reused record registers what is nested in it
+    # (R1.5): a record that is dropped is a call that runs again
+    from .c16 import r16_5, r16_6
+    r16_5(ctx, rc)
+    r16_6(ctx, rc)
+    r1_5(ctx, rc)
 
 
 def r5_10(ctx, rc):
